@@ -54,6 +54,9 @@ FIXED = [
  ("F36", "C14", "fix: carriage return in a CDATA-section element", "a CR inside a CDATA-section element came back as LF"),
  ("F25", "C08", "fix: name, namespace and prefix ids no longer wrap around", "the 65 537th distinct name (namespace, prefix) received the id of the first one (16-bit ids, unchecked cast)"),
  ("F42", "C20", "fix: fixed::Document::xotify puts trailing comments and PIs after the document element", "fixed::Document::xotify appended trailing comments/PIs inside the document element"),
+ ("F28", "C12", "fix: unresolved_namespaces reports an attribute namespace that is only bound as default", "clone_with_prefixes of <e xmlns=\"A\" p:at=\"\"/> (p inherited) could not be serialised although the source could"),
+ ("F52", "C15", "fix: deduplicate_namespaces keeps the prefix an attribute needs under nested default declarations", "<doc xmlns=\"X\"><a xmlns:p=\"X\"><b xmlns=\"X\" p:attr=\"\"/></a></doc> lost p after deduplication (MissingPrefix); found by a seeding sub-agent on the unchanged tree, then reproduced by the C15 forced layouts"),
+ ("F53", "C06", "fix: text consolidation does not touch the added node after it was merged away", "insert_after(t2, t1) on adjacent text nodes t0 t1 t2 (left over from a consolidation-off phase) with consolidation on panicked: Try to access a freed node (regression of the F18 repair, found by C12's side mutations and then by the mixed-consolidation states of the C06 catalogue)"),
  ("F31a", "C06", "fix: create_missing_prefixes returns an error for a document without an element", "create_missing_prefixes panicked on a document without element"),
 ]
 OPEN = [
